@@ -362,7 +362,7 @@ func main() {
 			for i := range A {
 				for j := range A {
 					for l := range A {
-						if !r.Thorough() && (A[i].key == "b" || A[j].key == "b" || A[l].key == "b") {
+						if !r.Thorough() && init != "ab" && (A[i].key == "b" || A[j].key == "b" || A[l].key == "b") {
 							continue
 						}
 						add(-1, init, [][]opSpec{{A[i], A[j]}, {A[l]}})
